@@ -171,7 +171,38 @@ func runC15(c *core.Ctx) {
 				look(cv.V.Cond.Expr)
 			}
 		}
-		if !o.Shape(prev != nil, "the variable holding the byte before a possible EI was not found (no comparison with CR/LF in front of checkEI)") {
+		if prev == nil {
+			// any other test of one byte-typed local in front of checkEI (class[prev] == space, ...)
+			cands := map[types.Object]*ast.Ident{}
+			for _, cv := range callVertices(g, cp+".(*scanner).checkEI") {
+				look := func(e ast.Expr) {
+					ast.Inspect(e, func(n ast.Node) bool {
+						id, ok := n.(*ast.Ident)
+						if !ok {
+							return true
+						}
+						if v, isVar := info.ObjectOf(id).(*types.Var); isVar && !v.IsField() && v.Pkg() != nil && v.Parent() != v.Pkg().Scope() {
+							if b, isB := v.Type().Underlying().(*types.Basic); isB && b.Kind() == types.Uint8 {
+								cands[v] = id
+							}
+						}
+						return true
+					})
+				}
+				for _, a := range g.DominatingAtoms(cv.V) {
+					look(a.Expr)
+				}
+				if cv.V.Cond != nil && cv.V.Cond.Expr != nil {
+					look(cv.V.Cond.Expr)
+				}
+			}
+			if len(cands) == 1 {
+				for v, id := range cands {
+					prev, prevID = v, id
+				}
+			}
+		}
+		if !o.Shape(prev != nil, "the variable holding the byte before a possible EI was not found (no test of a single byte variable in front of checkEI)") {
 			return
 		}
 		env := byteEnvFor(c.Prog, fn, prev)
